@@ -35,10 +35,41 @@ def budget(tier):
     return {'examples': 6000 if tier == 'quick' else 120000, 'wall_s': 300 if tier == 'quick' else 3000, 'shrink_s': 60}
 
 
+@_st.composite
+def _timeouts_always(draw):
+    to = {str(t): draw(_st.sampled_from([0.13, 0.27, 0.41])) for t in range(4) if draw(_st.integers(0, 3))}
+    return to or {'0': 0.27}
+
+
+# second profile: an awaiting handler is cut off by its timeout while several handlers of the awaited event are in flight on a
+# parallel bus, some of which need time to unwind - whatever they do afterwards must not touch the event once it was seen complete
+P_CUT = Profile(timeouts=_timeouts_always(), cleanup=0.5, cleanup_durs=[0.25, 0.5], watch=True, min_buses=2, max_buses=3, par=0.5, min_handlers=2, max_handlers_per_level=3,
+                actor_ops=['disp', 'disp', 'sleep', 'await', 'status'], max_actor_ops=5, raises=0.0, maxdepth=[1, 2], wild=0.2, fwd=0.15, sync=0.1,
+                modes=['await', 'await', 'await', 'later'], ops=['sleep', 'sleep', 'disp', 'disp', 'disp', 'awaitall'], durs=[0.05, 0.1, 0.25, 0.5])
+
+
+def enumerate_cases(tier, seed):
+    """the same shape, enumerated: handler h0 on serial bus 0 awaits a child processed inline by parallel bus 1 with two handlers and is cut
+    off by its timeout; the later sibling needs `cl` seconds of awaited clean-up and then either re-raises or returns a value"""
+    import itertools
+
+    for T0, cl, first_d, warm, ranks in itertools.product((0.13, 0.27), (0.25, 0.5), (1.0, 0.05), (True, False), itertools.permutations((1, 2))):
+        yield {
+            'buses': [{'par': False, 'hist': None, 'rank': ranks[0]}, {'par': True, 'hist': None, 'rank': ranks[1]}], 'fwd': [],
+            'handlers': [
+                {'bus': 0, 'pat': 0, 'kind': 'async', 'prog': [['disp', 1, 1, 'await']], 'ret': 'idx'},
+                {'bus': 1, 'pat': 1, 'kind': 'async', 'prog': [['sleep', first_d]], 'ret': 'idx'},
+                {'bus': 1, 'pat': 1, 'kind': 'async', 'prog': [['sleep', 1.0]], 'ret': 'idx', 'cleanup': cl},
+            ],
+            'actors': [[['disp', 0, 0], ['await', 0], ['status', 0], ['sleep', 1.0], ['status', 0]]],
+            'maxdepth': 1, 'cap': 20, 'warm': warm, 'timeouts': {'0': T0}, 'watch': True,
+        }
+
+
 def strategy(tier):
     from bvt.props._scen import mixed
 
-    return mixed(scenario(P), tier, ID, need_watch=True)
+    return _st.integers(0, 3).flatmap(lambda k: scenario(P_CUT) if k == 0 else mixed(scenario(P), tier, ID, need_watch=True))
 
 
 def _lagging_forward(F):
